@@ -23,6 +23,11 @@ Inductive case :=
    token with call flags tf to the final method (10..15 as for CChain).  completed = HALT; w/n = storage changed /
    event emitted; ran = the token's callee ran; zran = the contract the callee calls on ran (final 12) *)
 | CCallT (f tf final : N) (completed w n ran zran : bool)
+(* a native method ([ct].[m]/a, called asking for flags f, so its frame has f) reaches a callback into a deployed
+   contract (onNEP17Payment / _deploy) whose body tries one capability: probe 0 nothing, 1 Local.Put, 2 Notify,
+   3 System.Contract.Call of another contract.  ran = the callback's code ran; cbflags = the call flags of the
+   callback's context (read from the VM); completed = HALT; eff = the probed capability took effect *)
+| CCallback (ct m : string) (a f probe : N) (ran : bool) (cbflags : N) (completed eff : bool)
 (* Permission.IsAllowed *)
 | CPerm1 (p : permission) (c : callee) (m : string) (impl : bool)
 (* Manifest.CanCall *)
@@ -130,6 +135,34 @@ Definition check_case (cs : case) : N :=
           let g := chain_flags AllFlags [(f, false); (tf, fsafe)] in
           let spec := imp ran (has f AllowCall) && imp w (has g WriteStates) && imp n (has g AllowNotify) &&
                       imp zran (has g AllowCall) in
+          code3 model spec
+      end
+  | CCallback ct m a f probe ran cbflags completed eff =>
+      match find_native ct m a native_methods with
+      | None => 3
+      | Some e =>
+          let pbody :=
+            match probe with
+            | 1 => [ISys "System.Storage.Local.Put"]
+            | 2 => [ISys "System.Runtime.Notify"]
+            | 3 => [ICall AllFlags false []]
+            | _ => []
+            end in
+          let reached := native_gate f e in
+          let g := callback_flags f AllFlags in
+          let '(tr, ok) := exec_now f (ICallback false AllFlags pbody) in
+          let meff := match probe with
+                      | 1 => has_effect EWrite tr
+                      | 2 => has_effect ENotify tr
+                      | 3 => (2 <=? List.length (filter (fun x => match fst x with ECall => true | _ => false end) tr))%nat
+                      | _ => false
+                      end in
+          let model := Bool.eqb ran reached && imp ran (cbflags =? g) &&
+                       Bool.eqb completed (reached && ok) && Bool.eqb eff (reached && meff) in
+          (* specification: flags only shrink (callback flags within the native frame's flags), and a capability
+             that took effect was in the native frame's flags *)
+          let bit := match probe with 1 => WriteStates | 2 => AllowNotify | 3 => AllowCall | _ => 0 end in
+          let spec := imp ran (subflags cbflags f) && imp eff (has f bit) && imp eff ran in
           code3 model spec
       end
   | CPerm1 p c m impl =>
